@@ -19,6 +19,7 @@ import (
 //   cmp   a,b = "secs:nanos"
 //   isect a,b = "nil" | "<start>/<end>" with start,end = "-" | "secs:nanos"
 //   conn  likewise
+//   pall - - | pbefore a - | pafter a - | pbetween a b   the period constructors; a,b = "-" (nil) | "secs:nanos"
 type tcase struct {
 	Op string `json:"op"`
 	A  string `json:"a"`
@@ -58,6 +59,8 @@ func (c tcase) runCode() string {
 			out = strconv.FormatBool(sctime.PeriodsIntersect(parsePeriod(c.A), parsePeriod(c.B)))
 		case "conn":
 			out = strconv.FormatBool(sctime.PeriodsConnected(parsePeriod(c.A), parsePeriod(c.B)))
+		case "pall", "pbefore", "pafter", "pbetween":
+			out = showPeriod(c.construct())
 		default:
 			out = "!bad-op"
 		}
@@ -66,6 +69,43 @@ func (c tcase) runCode() string {
 		return "panic:" + msg
 	}
 	return out
+}
+
+// construct runs one of the period constructors of the real code.
+func (c tcase) construct() *sctimepb.Period {
+	switch c.Op {
+	case "pall":
+		return sctime.AllTime()
+	case "pbefore":
+		return sctime.PeriodBefore(parseTs(c.A))
+	case "pafter":
+		return sctime.PeriodOnOrAfter(parseTs(c.A))
+	default:
+		return sctime.PeriodBetween(parseTs(c.A), parseTs(c.B))
+	}
+}
+
+func showTs(t *timestamppb.Timestamp) string {
+	if t == nil {
+		return "-"
+	}
+	return fmt.Sprintf("%d:%d", t.Seconds, t.Nanos)
+}
+
+func showPeriod(p *sctimepb.Period) string {
+	if p == nil {
+		return "nil"
+	}
+	return showTs(p.StartTime) + "/" + showTs(p.EndTime)
+}
+
+// fromNs is the normalised timestamp of an instant given in ns (nil if it does not fit int64 seconds).
+func fromNs(x *big.Int) *timestamppb.Timestamp {
+	q, r := new(big.Int).DivMod(x, big.NewInt(1_000_000_000), new(big.Int))
+	if !q.IsInt64() {
+		return nil
+	}
+	return &timestamppb.Timestamp{Seconds: q.Int64(), Nanos: int32(r.Int64())}
 }
 
 // --- independent oracle (math/big on the ns timeline) ------------------------------------------
@@ -100,6 +140,54 @@ func (c tcase) monitor(m *lib.Monitor, code string) {
 		return
 	}
 	switch c.Op {
+	case "pall", "pbefore", "pafter", "pbetween":
+		// the constructed period, read through the real PeriodsIntersect with the 1ns probe [x, x+1ns), must
+		// contain exactly the instants the constructor documents: all / before a / from a on / [a, b)
+		name := map[string]string{"pall": "AllTime", "pbefore": "PeriodBefore", "pafter": "PeriodOnOrAfter", "pbetween": "PeriodBetween"}[c.Op]
+		var lo, hi *timestamppb.Timestamp
+		switch c.Op {
+		case "pbefore":
+			hi = parseTs(c.A)
+		case "pafter":
+			lo = parseTs(c.A)
+		case "pbetween":
+			lo, hi = parseTs(c.A), parseTs(c.B)
+		}
+		if !normal(lo) || !normal(hi) {
+			return
+		}
+		var l, h *big.Int
+		if lo != nil {
+			l = ns(lo)
+		}
+		if hi != nil {
+			h = ns(hi)
+		}
+		if !lt(l, h) {
+			return // empty or inverted: no instants claimed
+		}
+		p := c.construct()
+		probes := []*big.Int{big.NewInt(0), big.NewInt(1_700_000_000_000_000_000)}
+		for _, b := range []*big.Int{l, h} {
+			if b != nil {
+				for _, dx := range []int64{-1, 0, 1} {
+					probes = append(probes, new(big.Int).Add(b, big.NewInt(dx)))
+				}
+			}
+		}
+		for _, x := range probes {
+			from, to := fromNs(x), fromNs(new(big.Int).Add(x, big.NewInt(1)))
+			if from == nil || to == nil {
+				continue
+			}
+			want := (l == nil || l.Cmp(x) <= 0) && (h == nil || x.Cmp(h) < 0)
+			got := sctime.PeriodsIntersect(p, &sctimepb.Period{StartTime: from, EndTime: to})
+			if got != want {
+				m.Violate("C18/"+name+"/wrong-instants", name+" does not denote the documented set of instants (probed with PeriodsIntersect against [x, x+1ns))", c,
+					fmt.Sprintf("instant %s member=%v", x, want), fmt.Sprintf("member=%v (period %s)", got, code))
+				break
+			}
+		}
 	case "cmp":
 		a, b := parseTs(c.A), parseTs(c.B)
 		if !normal(a) || !normal(b) {
@@ -261,6 +349,20 @@ func runTime(f lib.Flags, res *lib.Result, drv *lib.Driver) {
 	}
 	compare(k2b, mon, drv, cases)
 
+	// K2c: the period constructors over the endpoint domain
+	k2c := res.Tie("constructors-exhaustive-small", "K2",
+		"AllTime, PeriodBefore(a), PeriodOnOrAfter(a), PeriodBetween(a, b) for all a, b in {nil, 0..5}s x nanos {0,1,999999999}; non-trivial = some bound given")
+	k2c.Exhaustive = true
+	cases = cases[:0]
+	cases = append(cases, tcase{"pall", "-", "-"})
+	for _, a := range endpointDomain() {
+		cases = append(cases, tcase{"pbefore", a, "-"}, tcase{"pafter", a, "-"})
+		for _, b := range endpointDomain() {
+			cases = append(cases, tcase{"pbetween", a, b})
+		}
+	}
+	compare(k2c, mon, drv, cases)
+
 	// K1: random 64-bit range timestamps and periods built from them
 	k1 := res.Tie("random-64bit", "K1",
 		"random timestamps over the full int64 seconds range (extremes, near-equal, random) and periods built from a shared pool so that equal/adjacent bounds are frequent; non-trivial = operands differ")
@@ -269,7 +371,20 @@ func runTime(f lib.Flags, res *lib.Result, drv *lib.Driver) {
 	cases = cases[:0]
 	for i := 0; i < n; i++ {
 		pool := []string{randTs(r), randTs(r), randTs(r)}
-		switch r.Intn(3) {
+		switch r.Intn(4) {
+		case 3:
+			a, b := pool[r.Intn(3)], pool[r.Intn(3)]
+			if r.Intn(6) == 0 {
+				a = "-"
+			}
+			switch r.Intn(3) {
+			case 0:
+				cases = append(cases, tcase{"pbefore", a, "-"})
+			case 1:
+				cases = append(cases, tcase{"pafter", a, "-"})
+			default:
+				cases = append(cases, tcase{"pbetween", a, b})
+			}
 		case 0:
 			a := pool[r.Intn(3)]
 			b := pool[r.Intn(3)]
@@ -300,7 +415,11 @@ func compare(t *lib.Tie, mon *lib.Monitor, drv *lib.Driver, cases []tcase) {
 		code := c.runCode()
 		key := c.line()
 		nontrivial := c.A != c.B && c.A != "nil" && c.B != "nil"
-		t.Count(c.Op + "=" + code)
+		if strings.HasPrefix(c.Op, "p") {
+			t.Count(c.Op)
+		} else {
+			t.Count(c.Op + "=" + code)
+		}
 		t.Record(key, nontrivial, c, model[i], code)
 		mon.Eval(key, nontrivial, nil)
 		mon.Count(c.Op)
